@@ -35,6 +35,7 @@ var siteCodes = map[string]int{
 	"gRPCBrokerClientImpl.StartStream:func#1": 8,
 	"GRPCBroker.Accept:func#1":                9,
 	"GRPCBroker.Run:timeoutWait#1":            10,
+	"GRPCBroker.Run:knockExpiry#1":            29,
 	"newGRPCClient:Run#1":                     11,
 	"newGRPCClient:StartStream#1":             12,
 	"newGRPCClient:Run#2":                     13,
